@@ -570,12 +570,12 @@ class SsdpSearchResponder:
             )
         elif matched_devices := self._matched_devices_by_type(search_target):
             responses.extend(
-                self._build_responses_device_type(device, search_target)
+                self._build_responses_device_type(device, st_header)
                 for device in matched_devices
             )
         elif matched_services := self._matched_services_by_type(search_target):
             responses.extend(
-                self._build_responses_service(service, search_target)
+                self._build_responses_service(service, st_header)
                 for service in matched_services
             )
 
